@@ -473,11 +473,16 @@ def _arm_consts(fn, blocks):
             if rv["k"] == "BinaryOp":
                 l, r = fn.term_of_operand(rv["l"], b), fn.term_of_operand(rv["r"], b)
                 # a width held in a local (`let entry_size = match fat type { .. => 2, .. => 4 }`): its definitions in these blocks
-                if strip_refs(r)[0] == "var":
-                    cs_ = {strip_refs(fn.term_of_rvalue(d_[3], d_[1]))[1] for d_ in fn.defs().get(strip_refs(r)[1], []) if d_[0] == "assign" and d_[1] in blocks and strip_refs(fn.term_of_rvalue(d_[3], d_[1]))[0] == "c"}
-                    if len(cs_) == 1:
-                        r = ("c", next(iter(cs_)), None)
+                def _as_const(x_):
+                    if strip_refs(x_)[0] == "var":
+                        cs_ = {strip_refs(fn.term_of_rvalue(d_[3], d_[1]))[1] for d_ in fn.defs().get(strip_refs(x_)[1], []) if d_[0] == "assign" and d_[1] in blocks and strip_refs(fn.term_of_rvalue(d_[3], d_[1]))[0] == "c"}
+                        if len(cs_) == 1:
+                            return ("c", next(iter(cs_)), None)
+                    return x_
+                l, r = _as_const(l), _as_const(r)
                 op = rv["op"].replace("WithOverflow", "")
+                if op in ("Mul", "Add", "BitAnd") and strip_refs(l)[0] == "c" and strip_refs(r)[0] != "c":
+                    l, r = r, l             # commutative: the constant is the right operand
                 if op == "Mul" and r[0] == "c" and last_field(strip_refs(l)) == "0":
                     sig["mul"].add(r[1])
                 if op == "Add" and r[0] == "c" and l[0] != "c":
